@@ -232,6 +232,100 @@ def run_extras(_):
     return part.result()
 
 
+LABEL_STRINGS = ["abc", "a b", "Z\u00fcrich", "\u20ac", "Malm\u00f6 to \u00c5rhus", "\U0001F600", "x\u00fc", "\u00fcx", "\u00fc\u00fc\u00fc\u00fc", "a < b", "a & b", "a > b", "]]>",
+                 "&amp;", "<!-- c -->", "'", 'q\\"q', "a\\\\b", "i", "tab\there"]
+
+
+def run_label_strings(_):
+    """labels whose text contains a string literal (the one place where text outside ASCII and XML-special characters can stand in a
+    label): every label kind x every string; the file must be well-formed, mirror the graph, and read back to the same expressions"""
+    part = engine.Part()
+    w = engine.worker("san" if os.environ.get("C20_SAN") else "fast")
+    X = xmlgen
+    decl = ("int i; clock x; broadcast chan c[3]; int sfn(const string s) { return 1; } bool sknown(const string s) { return true; } "
+            "double sd(const string s) { return 2.0; }")
+
+    def T(inv=None, rate=None, select=None, guard=None, sync=None, assign=None, prob=None):
+        if prob is not None:
+            return X.template("T", locations=[X.location("id0", "L0"), X.location("id1", "L1")], branchpoints=["id2"], init="id0",
+                              transitions=[X.transition("id0", "id2", guard=guard), X.transition("id2", "id1", prob=prob), X.transition("id2", "id0", prob="1")])
+        return X.template("T", locations=[X.location("id0", "L0", inv=inv, rate=rate), X.location("id1", "L1")], init="id0",
+                          transitions=[X.transition("id0", "id1", select=select, guard=guard, sync=sync, assign=assign)])
+    kinds = {"guard": lambda q: T(guard="i == 0 && sknown(%s)" % q), "assignment": lambda q: T(assign="i = sfn(%s)" % q),
+             "assignment-list": lambda q: T(assign="i = 1, i = sfn(%s), i = 2" % q), "synchronisation": lambda q: T(sync="c[sfn(%s)]!" % q),
+             "invariant": lambda q: T(inv="x <= 5 && sknown(%s)" % q), "select": lambda q: T(select="k : int[0, sfn(%s)]" % q),
+             "exponentialrate": lambda q: T(rate="sfn(%s)" % q), "probability": lambda q: T(prob="sfn(%s)" % q),
+             "guard-two-strings": lambda q: T(guard="sknown(%s) && sknown(%s)" % (q, q))}
+    docs, meta = [], []
+    for kid, mk in kinds.items():
+        for st in LABEL_STRINGS:
+            docs.append(X.nta(decl, [mk('"%s"' % st)], "P = T(); system P;"))
+            meta.append("%s:%s" % (kid, st.encode("ascii", "backslashreplace").decode()))
+    res = X.run_docs(w, docs, want=["dump", "nosymtypes", "write"], batch=20)
+    again, idx = [], []
+    for k, (key, doc, resp) in enumerate(zip(meta, docs, res)):
+        part.count()
+        rp = {"op": "xml", "buf": doc, "want": ["dump", "nosymtypes", "write"]}
+        if resp.get("died"):
+            part.outcome("writer-crashes")
+            part.violation("crash:%s:label-strings" % engine.crash_signature(resp), "parse+write kills the process: %s" % key, rp)
+            continue
+        if not X.accepted(resp):
+            raise RuntimeError("C20 generator bug: label-string model not accepted: %s %s" % (key, X.msgs(resp)[:2]))
+        part.nontrivial_case("label-string:" + key)
+        if resp.get("write_exc") or resp.get("write_rc") != 0:
+            part.outcome("writer-throws")
+            part.violation("writer-throws:%s:label-strings" % resp.get("write_exc"), "write_XML_file fails on an accepted model: rc=%s exc=%s (%s)" %
+                           (resp.get("write_rc"), resp.get("write_exc"), key), rp)
+            continue
+        bad = check_written(None, resp["dump"], resp.get("written", ""))
+        if bad:
+            part.outcome("graph-differs")
+            for sig, detail in bad[:2]:
+                part.violation("graph:%s:label-strings" % sig, detail + " (%s)" % key, rp)
+            continue
+        # the same declarations with a template rebuilt from nothing but the elements and label texts of the written file (the written
+        # declarations are not part of the statement)
+        root = ET.fromstring(resp["written"])
+        te = root.find("template")
+        lab = lambda el: {x.get("kind"): (x.text or "") for x in el.findall("label")}
+        locs = [X.location(l.get("id"), (l.findtext("name") or "").strip(), inv=lab(l).get("invariant"), rate=lab(l).get("exponentialrate"))
+                for l in te.findall("location")]
+        trs = [X.transition(t.find("source").get("ref"), t.find("target").get("ref"), select=lab(t).get("select"), guard=lab(t).get("guard"),
+                            sync=lab(t).get("synchronisation"), assign=lab(t).get("assignment"), prob=lab(t).get("probability"))
+               for t in te.findall("transition")]
+        tpl = X.template("T", locations=locs, branchpoints=[b.get("id") for b in te.findall("branchpoint")], init=te.find("init").get("ref"),
+                         transitions=trs)
+        again.append(X.nta(decl, [tpl], "P = T(); system P;"))
+        idx.append(k)
+    res2 = X.run_docs(w, again, want=["dump", "nosymtypes"], batch=20)
+
+    def labels(dump):
+        pre = "(AND (CONSTANT:INT 1) "
+        un = lambda x: x[len(pre):-1] if isinstance(x, str) and x.startswith(pre) and x.endswith(")") else x
+        return [[[un(l["inv"]), l["exp_rate"]] for l in t["locations"]] + [[e["select"], e["guard"], e["sync"], e["assign"], e["prob"]] for e in t["edges"]]
+                for t in dump["templates"] if t["is_TA"]]
+    for k, resp2 in zip(idx, res2):
+        part.count()
+        key = meta[k]
+        rp = {"op": "xml", "buf": again[idx.index(k)], "want": ["dump", "nosymtypes"], "original": docs[k], "written": res[k]["written"]}
+        if engine.check_crash(part, PID, resp2, "parse of the model rebuilt from the written labels", rp):
+            continue
+        if resp2.get("dump") is None or resp2.get("exc") is not None or not X.accepted(resp2):
+            part.outcome("written-labels-not-parsed")
+            part.violation("reparse-fails:label-strings", "the model rebuilt from the written labels is not accepted by the library: %s %s (%s)" %
+                           (resp2.get("exc"), X.msgs(resp2)[:2], key), rp)
+            continue
+        a, b = labels(res[k]["dump"]), labels(resp2["dump"])
+        if a != b:
+            part.outcome("labels-differ")
+            part.violation("label-text:label-strings:" + key.split(":")[0], "the written labels do not carry the document's expressions (%s): %s vs %s" %
+                           (key, json.dumps(a)[:200], json.dumps(b)[:200]), rp)
+        else:
+            part.outcome("labels-ok/strings")
+    return part.result()
+
+
 def main():
     b = bound()
     rep = engine.Report(PID, "exploration",
@@ -248,6 +342,7 @@ def main():
     for res in engine.pmap(run_shard, shards):
         rep.merge(res)
     rep.merge(run_extras(None))
+    rep.merge(run_label_strings(None))
     rep.extra["choice_sequences"] = len(prefs)
     rep.assumptions = ["Python's xml.etree.ElementTree is the independent XML parser",
                        "label text is judged by re-parsing the written file with the library and comparing expression trees",
